@@ -700,8 +700,6 @@ theorem foldl_filter {α S : Type} (p : α → Bool) (f : S → α → S) (xs : 
     simp only [List.filter, List.foldl_cons]
     cases p x <;> simp [ih]
 
-/-- The action function `IterBatched` amounts to. -/
-def batchAct (F : K → Bool) (k : K) : Act := if F k then .noop else .update
 
 theorem uBatched_eq_uIter (t : Tracker K V) (B : Nat) (F : K → Bool) (c : Nat) (ord : List (K × V)) :
     uBatched t B F c ord = uIter t ord (batchAct F) := by
